@@ -72,6 +72,7 @@ TRANSLATORS = {
     "SetGen.v": ("tr/set.py", ["varlink/src/lib.rs"]),
     "PoolGen.v": ("tr/pool.py", ["varlink/src/server.rs"]),
     "GrammarGen.v": ("tr/grammar.py", ["varlink_parser/src/varlink_grammar.rs", "varlink_parser/src/lib.rs"]),
+    "AddrGen.v": ("tr/addr.py", ["varlink/src/client.rs", "varlink/src/server.rs"]),
 }
 
 
